@@ -295,6 +295,42 @@ fn check_stream(rt: &tokio::runtime::Runtime, srv: &Srv, load: bool, names: &[&s
     true
 }
 
+/// "Keeps serving later requests": every read request of the grid (plus large-k searches with a
+/// filter, which the server oversamples) is sent FIVE times in a row to a populated server, then a
+/// plain valid Search, Query and Insert must still be answered successfully — repeated
+/// pathological requests must not trip a circuit breaker (or any other latch) for valid ones.
+fn check_repeats(rt: &tokio::runtime::Runtime, label: &str, rpc: &Rpc, metric: &str, st: &mut Stats) {
+    let srv = build(&cfg(None, metric));
+    for (id, v) in [(1u64, [1.0f32, 0.0, 0.0]), (2, [0.0, 1.0, 0.0]), (3, [0.6, 0.8, 0.0])] {
+        let _ = rt.block_on(call(&srv, &Rpc::Insert { t: 0, item: item(id, &v, "", 0) }));
+    }
+    let _ = rt.block_on(call(&srv, &Rpc::Flush { t: 0 }));
+    st.requests += 1;
+    for _ in 0..5 {
+        let r = std::panic::catch_unwind(std::panic::AssertUnwindSafe(|| rt.block_on(async { tokio::time::timeout(std::time::Duration::from_secs(30), call(&srv, rpc)).await })));
+        if matches!(r, Ok(Err(_))) {
+            st.viol.push((format!("C15|{}|no-answer-within-horizon", rpc_name(rpc)), json!({"engine":"srvmc","check":"C15","request":label,"metric":metric,"detail":"repeated request did not complete within 30 s"})));
+            return;
+        }
+    }
+    let probes = [
+        ("Search", Rpc::Search { t: 0, q: vec![0.6, 0.8, 0.0], k: 2, ns: "".into(), flt: Flt::None, legacy: vec![], emb: false, ef: 0 }),
+        ("Query", Rpc::Query { t: 0, id: 1, emb: true, ns: "".into() }),
+        ("Insert", Rpc::Insert { t: 0, item: item(778, &[0.0, 0.6, 0.8], "", 0) }),
+    ];
+    for (pname, p) in probes {
+        let c = rt.block_on(call(&srv, &p));
+        let found_nothing = pname == "Search" && c.get("results").and_then(|r| r.as_array()).map(|a| a.is_empty()).unwrap_or(false);
+        if is_refusal(&c) || found_nothing {
+            st.viol.push((
+                format!("C15|{}|repeated-request-stops-valid-{pname}", rpc_name(rpc)),
+                json!({"engine":"srvmc","check":"C15","request":format!("5 x {label}"),"metric":metric,"detail":format!("after the request was sent five times a valid {pname} is answered {c}")}),
+            ));
+            return;
+        }
+    }
+}
+
 /// Structurally malformed filters (a required operand is missing). `Flt::Not(None)` is a
 /// NotFilter without operand.
 fn malformed_filters() -> Vec<(&'static str, Flt)> {
@@ -434,6 +470,18 @@ pub fn worker(wi: usize, wn: usize, tier: &str) {
                 }
             }
             let _ = std::fs::remove_dir_all(&dir);
+        }
+        // --- repeated pathological reads, then valid probes
+        let mut reps: Vec<(String, Rpc)> = singles.iter().filter(|(_, r)| matches!(r, Rpc::Search { .. } | Rpc::BulkSearch { .. } | Rpc::Query { .. } | Rpc::BulkQuery { .. })).cloned().collect();
+        for k in [1000u32, 999, 501] {
+            reps.push((format!("Search k={k} with filter"), Rpc::Search { t: 0, q: vec![0.6, 0.8, 0.0], k, ns: "".into(), flt: Flt::Exact("a".into(), "1".into()), legacy: vec![], emb: false, ef: 0 }));
+            reps.push((format!("Search k={k} ef=10000"), Rpc::Search { t: 0, q: vec![0.6, 0.8, 0.0], k, ns: "".into(), flt: Flt::None, legacy: vec![], emb: false, ef: 10_000 }));
+        }
+        for (ri, (label, rpc)) in reps.iter().enumerate() {
+            if (ri + idx) % wn != wi {
+                continue;
+            }
+            check_repeats(&rt, label, rpc, metric, &mut st);
         }
         // --- bare malformed filters on BatchDelete
         for (mi, (name, flt)) in malformed_filters().iter().enumerate() {
